@@ -388,6 +388,9 @@ class MarkdownNormalizer(Renderer):
             with self.container(prefix, subsequent_indent):
                 rendered_item = self.render(child)
                 result.append(rendered_item)
+            # The first-line prefix (e.g. an enclosing item's bullet) is used up by the first item;
+            # the following items start from the continuation prefix.
+            self._prefix = self._second_prefix
 
         # Restore the previous list's tightness (for nested lists)
         self._current_list_tight = old_tight
